@@ -14,11 +14,37 @@
 // operand, or an error path (negative return code) was exercised.
 #ifndef C20_DOMAIN_BODY
 
+// Compile-time partition (build speed): -DC20_PART=0 is the main part (globals, allocation
+// functions, MIP/PIP/misc programs, vf_case, main), -DC20_PART=k (1..8) holds the program of
+// the k-th domain; without C20_PART everything is compiled in a single translation unit.
+#ifndef C20_PART
+#define C20_PART -1
+#endif
+#define C20_MAIN_PART (C20_PART <= 0)
+#define C20_HAS_DOM(k) (C20_PART < 0 || C20_PART == (k))
+#define C20_CAT_(a, b, c, d) a##b##c##d
+#define C20_CAT(a, b, c, d) C20_CAT_(a, b, c, d)
+#define C20_CAT5_(a, b, c, d, e) a##b##c##d##e
+#define C20_CAT5(a, b, c, d, e) C20_CAT5_(a, b, c, d, e)
+#define C20_STR_(x) #x
+#define C20_STR(x) C20_STR_(x)
+
 #include "ppl-config.h"
 #include "version.hh"
 #include "ppl_include_files.hh"
 #include "ppl_c.h"
+#if !C20_MAIN_PART
+// common.hh defines the strong PPL assertion handlers: keep a single definition (main part)
+#define ppl_assertion_failed C20_CAT(c20_unused_assertion_failed_, C20_PART, , )
+#define ppl_unreachable_msg C20_CAT(c20_unused_unreachable_msg_, C20_PART, , )
+#define ppl_unreachable C20_CAT(c20_unused_unreachable_, C20_PART, , )
+#endif
 #include "common.hh"
+#if !C20_MAIN_PART
+#undef ppl_assertion_failed
+#undef ppl_unreachable_msg
+#undef ppl_unreachable
+#endif
 #include <new>
 #include <memory>
 
@@ -29,7 +55,11 @@ using namespace Parma_Polyhedra_Library;
 // running are tagged; mem::live_c counts the tagged blocks still alive (ownership oracle).
 // mem::arm > 0 makes the arm-th allocation performed inside a C call throw std::bad_alloc.
 namespace mem {
-static long live_c = 0; static long arm = 0; static bool in_c = false; static long fired = 0;
+extern long live_c, arm, fired; extern bool in_c;
+}
+#if C20_MAIN_PART
+namespace mem {
+long live_c = 0, arm = 0, fired = 0; bool in_c = false;
 struct Hdr { uint64_t magic; uint64_t tag; };
 static const uint64_t MAGIC = 0xC20C20C20C20C20CULL;
 static inline void* get(size_t n, bool nothrow) {
@@ -57,13 +87,19 @@ void operator delete(void* p, const std::nothrow_t&) noexcept { mem::put(p); }
 void operator delete[](void* p, const std::nothrow_t&) noexcept { mem::put(p); }
 
 const vf::Info vf_info = { "C20", "c20_cint", 3.0 };
+#endif // C20_MAIN_PART
 
 // ------------------------------------------------------------------ error handler record
-static struct ErrRec { int count; int code; char desc[200]; } g_err;
+struct ErrRec { int count; int code; char desc[200]; };
+extern ErrRec g_err;
+extern long g_handles;         // handles created through ppl_new_* and not yet deleted
+extern "C" void c20_error_handler(enum ppl_enum_error_code code, const char* d);
+#if C20_MAIN_PART
+ErrRec g_err; long g_handles = 0;
 extern "C" void c20_error_handler(enum ppl_enum_error_code code, const char* d) {
   ++g_err.count; g_err.code = (int) code; std::snprintf(g_err.desc, sizeof g_err.desc, "%s", d ? d : "(null)");
 }
-static long g_handles = 0;     // handles created through ppl_new_* and not yet deleted
+#endif
 
 static std::string zs(const mpz_class& z) { return z.get_str(); }
 
@@ -71,6 +107,7 @@ static std::string zs(const mpz_class& z) { return z.get_str(); }
 struct Env {
   vf::Ctx& c; vf::Tape& t;
   int err_paths = 0, nt_steps = 0;
+  bool base_leak = false;
   long arm_next = 0; bool oom_fired = false;   // allocation-failure injection for the next C call
   explicit Env(vf::Ctx& c_) : c(c_), t(c_.t) {}
 
@@ -523,12 +560,6 @@ struct Basics {
 };
 
 // ------------------------------------------------------------------ the interfaced domains
-#define C20_CAT_(a, b, c, d) a##b##c##d
-#define C20_CAT(a, b, c, d) C20_CAT_(a, b, c, d)
-#define C20_CAT5_(a, b, c, d, e) a##b##c##d##e
-#define C20_CAT5(a, b, c, d, e) C20_CAT5_(a, b, c, d, e)
-#define C20_STR_(x) #x
-#define C20_STR(x) C20_STR_(x)
 #define C20_NONE(M)
 typedef Pointset_Powerset<C_Polyhedron> X_PSet;
 typedef Domain_Product<C_Polyhedron, Grid>::Constraints_Product X_Prod;
@@ -563,7 +594,10 @@ typedef Octagonal_Shape<mpz_class> X_Oct;
 #define DOM_NARROW 0
 #define DOM_WIDENINGS(M) C20_POLY_W(M)
 #define DOM_LIMITED(M) C20_POLY_L(M)
+#if C20_HAS_DOM(1)
 #include "c20_cint.cc"
+void c20_run_CPoly(Env& e, Basics& b) { Prog_CPoly p(e, b); p.run(); }
+#endif
 #undef DOM_NAME
 #undef DOM_CT
 #undef DOM_X
@@ -575,7 +609,10 @@ typedef Octagonal_Shape<mpz_class> X_Oct;
 #define DOM_NNC 1
 #undef DOM_LINPART
 #define DOM_LINPART 0
+#if C20_HAS_DOM(2)
 #include "c20_cint.cc"
+void c20_run_NNCPoly(Env& e, Basics& b) { Prog_NNCPoly p(e, b); p.run(); }
+#endif
 #undef DOM_NAME
 #undef DOM_CT
 #undef DOM_OT
@@ -599,7 +636,10 @@ typedef Octagonal_Shape<mpz_class> X_Oct;
 #define DOM_GENSYS 0
 #define DOM_WIDENINGS(M) M(congruence_widening_assign) M(generator_widening_assign)
 #define DOM_LIMITED(M)
+#if C20_HAS_DOM(3)
 #include "c20_cint.cc"
+void c20_run_Grid(Env& e, Basics& b) { Prog_Grid p(e, b); p.run(); }
+#endif
 #undef DOM_NAME
 #undef DOM_CT
 #undef DOM_OT
@@ -623,7 +663,10 @@ typedef Octagonal_Shape<mpz_class> X_Oct;
 #define DOM_NARROW 1
 #define DOM_WIDENINGS(M) M(CC76_widening_assign)
 #define DOM_LIMITED(M) M(limited_CC76_extrapolation_assign)
+#if C20_HAS_DOM(4)
 #include "c20_cint.cc"
+void c20_run_RBox(Env& e, Basics& b) { Prog_RBox p(e, b); p.run(); }
+#endif
 #undef DOM_NAME
 #undef DOM_CT
 #undef DOM_OT
@@ -637,7 +680,10 @@ typedef Octagonal_Shape<mpz_class> X_Oct;
 #define DOM_X X_BDS
 #define DOM_WIDENINGS(M) M(BHMZ05_widening_assign) M(H79_widening_assign) M(CC76_extrapolation_assign)
 #define DOM_LIMITED(M) M(limited_BHMZ05_extrapolation_assign) M(limited_H79_extrapolation_assign) M(limited_CC76_extrapolation_assign)
+#if C20_HAS_DOM(5)
 #include "c20_cint.cc"
+void c20_run_BDS(Env& e, Basics& b) { Prog_BDS p(e, b); p.run(); }
+#endif
 #undef DOM_NAME
 #undef DOM_CT
 #undef DOM_OT
@@ -651,7 +697,10 @@ typedef Octagonal_Shape<mpz_class> X_Oct;
 #define DOM_X X_Oct
 #define DOM_WIDENINGS(M) M(BHMZ05_widening_assign) M(CC76_extrapolation_assign)
 #define DOM_LIMITED(M) M(limited_BHMZ05_extrapolation_assign) M(limited_CC76_extrapolation_assign)
+#if C20_HAS_DOM(6)
 #include "c20_cint.cc"
+void c20_run_Oct(Env& e, Basics& b) { Prog_Oct p(e, b); p.run(); }
+#endif
 #undef DOM_NAME
 #undef DOM_CT
 #undef DOM_OT
@@ -685,7 +734,10 @@ typedef Octagonal_Shape<mpz_class> X_Oct;
 #define DOM_NARROW 0
 #define DOM_WIDENINGS(M)
 #define DOM_LIMITED(M)
+#if C20_HAS_DOM(7)
 #include "c20_cint.cc"
+void c20_run_PSet(Env& e, Basics& b) { Prog_PSet p(e, b); p.run(); }
+#endif
 #undef DOM_NAME
 #undef DOM_CT
 #undef DOM_OT
@@ -703,8 +755,21 @@ typedef Octagonal_Shape<mpz_class> X_Oct;
 #define DOM_WIDEN 1
 #define DOM_SIMPLIFY 0
 #define DOM_CIP 0
+#if C20_HAS_DOM(8)
 #include "c20_cint.cc"
+void c20_run_Prod(Env& e, Basics& b) { Prog_Prod p(e, b); p.run(); }
+#endif
 #undef C20_DOMAIN_BODY
+
+void c20_run_CPoly(Env& e, Basics& b);
+void c20_run_NNCPoly(Env& e, Basics& b);
+void c20_run_Grid(Env& e, Basics& b);
+void c20_run_RBox(Env& e, Basics& b);
+void c20_run_BDS(Env& e, Basics& b);
+void c20_run_Oct(Env& e, Basics& b);
+void c20_run_PSet(Env& e, Basics& b);
+void c20_run_Prod(Env& e, Basics& b);
+#if C20_MAIN_PART
 
 // ------------------------------------------------------------------ MIP_Problem
 static void mip_program(Env& e, Basics& b) {
@@ -884,13 +949,13 @@ static void misc_program(Env& e, Basics& b) {
     HCoefficient k; mpz_class v = e.gen_z(); b.mk_coef(k, v); e.both("ppl_Coefficient_OK", "coef_limits", [&] { return ppl_Coefficient_OK(k.k()); }, [&] { return 1; }); b.same_print("Coefficient", [&](char** s) { return ppl_io_asprint_Coefficient(s, k.k()); }, Coefficient(v));
     { using namespace IO_Operators; int rc; std::string got = e.via_file("ppl_io_fprint_Coefficient", [&](FILE* f) { return ppl_io_fprint_Coefficient(f, k.k()); }, &rc); c.check("same.print", rc == 0 && got == zs(v), "ppl_io_fprint_Coefficient differs"); } k.free_(e);
     // length error: a dimension beyond the maximum
-    { HLinear_Expression le; int rc = e.both("ppl_new_Linear_Expression_with_dimension", "le_too_big", [&] { return ppl_new_Linear_Expression_with_dimension(le.out(), m + 1); }, [&] { Linear_Expression x; x.set_space_dimension(m + 1); return 0; }); le.got(rc); le.free_(e); }
+    { HLinear_Expression le; int rc = e.both("ppl_new_Linear_Expression_with_dimension", "le_too_big", [&] { return ppl_new_Linear_Expression_with_dimension(le.out(), (size_t) -2); }, [&] { Linear_Expression x(0 * Variable((size_t) -3)); return 0; }); le.got(rc); le.free_(e); }
     break; }
-  case 2: { c.log << "timeouts: argument validation, set/reset\n";
+  case 2: { c.log << "timeouts: argument validation, set/reset\n"; e.base_leak = true;   // Watchdog's constructor leaks its handler when it throws (base library, Watchdog_inlines.hh)
     e.both("ppl_set_timeout", "set_timeout", [&] { return ppl_set_timeout(0); }, [&] () -> int { throw std::invalid_argument("zero"); });
     int r = e.ccall("ppl_set_timeout", [&] { return ppl_set_timeout(360000); }); c.check("same.ret.set_timeout", r == 0, "ppl_set_timeout(360000) failed"); r = e.ccall("ppl_set_timeout", [&] { return ppl_set_timeout(350000); }); c.check("same.ret.set_timeout", r == 0, "second ppl_set_timeout failed");
     r = e.ccall("ppl_reset_timeout", [&] { return ppl_reset_timeout(); }); c.check("same.ret.set_timeout", r == 0, "ppl_reset_timeout failed"); r = e.ccall("ppl_reset_timeout", [&] { return ppl_reset_timeout(); }); c.check("same.ret.set_timeout", r == 0, "second ppl_reset_timeout failed");
-    e.both("ppl_set_deterministic_timeout", "set_det_timeout", [&] { return ppl_set_deterministic_timeout(0, 3); }, [&] () -> int { throw std::invalid_argument("zero"); });
+    if (!vf::kf("KF-C20-6")) e.both("ppl_set_deterministic_timeout", "set_det_timeout_zero", [&] { return ppl_set_deterministic_timeout(0, 3); }, [&] () -> int { throw std::invalid_argument("zero"); }); else c.excluded("KF-C20-6");
     e.both("ppl_set_deterministic_timeout", "set_det_timeout", [&] { return ppl_set_deterministic_timeout(~0UL, 40); }, [&] () -> int { throw std::invalid_argument("too big"); });
     r = e.ccall("ppl_set_deterministic_timeout", [&] { return ppl_set_deterministic_timeout(1000000, 10); }); c.check("same.ret.set_det_timeout", r == 0, "ppl_set_deterministic_timeout failed");
     r = e.ccall("ppl_reset_deterministic_timeout", [&] { return ppl_reset_deterministic_timeout(); }); c.check("same.ret.set_det_timeout", r == 0, "ppl_reset_deterministic_timeout failed"); break; }
@@ -907,7 +972,7 @@ static void misc_program(Env& e, Basics& b) {
     if (oom) { if (vf::kf("KF-C20-2")) { c.excluded("KF-C20-2"); break; } e.arm_next = k; }
     e.ccall("ppl_io_wrap_string", [&] { r = ppl_io_wrap_string(src.c_str(), ind, fl, ll); return 0; });
     if (!oom) { std::string x = IO_Operators::wrap_string(src, ind, fl, ll); c.check("same.print", r && x == r, "ppl_io_wrap_string differs from wrap_string"); } std::free(r); if (oom) { c.nt(); } break; }
-  case 5: { c.log << "error handler replacement\n"; g_alt_count = 0; int r = e.ccall("ppl_set_error_handler", [&] { return ppl_set_error_handler(c20_alt_handler); }); c.check("same.ret.set_error_handler", r == 0, "ppl_set_error_handler failed");
+  case 5: { c.log << "error handler replacement\n"; e.base_leak = true; g_alt_count = 0; int r = e.ccall("ppl_set_error_handler", [&] { return ppl_set_error_handler(c20_alt_handler); }); c.check("same.ret.set_error_handler", r == 0, "ppl_set_error_handler failed");
     int rc = 0; try { rc = ppl_set_timeout(0); } catch (...) { rc = 1000; } ppl_set_error_handler(c20_error_handler); c.tag("ppl_set_timeout");
     c.check("err.handler", rc == PPL_ERROR_INVALID_ARGUMENT && g_alt_count == 1 && g_alt_code == rc && g_err.count == 0, [&] { return "replaced handler: rc " + std::to_string(rc) + ", new handler calls " + std::to_string(g_alt_count) + ", old handler calls " + std::to_string(g_err.count); }); c.nt(); break; }
   case 6: { c.log << "irrational precision, rounding mode\n"; unsigned p0 = 0; e.ccall("ppl_irrational_precision", [&] { return ppl_irrational_precision(&p0); }); c.check("same.irrational_precision", p0 == irrational_precision(), "irrational precision differs");
@@ -924,32 +989,34 @@ static void misc_program(Env& e, Basics& b) {
 }
 
 // ------------------------------------------------------------------ one case
+static bool g_skip_leak = false;
 static void run_case(vf::Ctx& c) {
   static bool init = false;
   if (!init) { init = true; int r = ppl_initialize(); if (r != 0) throw vf::Fail("init.first", "ppl_initialize() returned " + std::to_string(r)); ppl_set_error_handler(c20_error_handler); }
   Env e(c); Basics b(e); long h0 = g_handles;
   int what = c.t.weighted({12, 12, 12, 9, 9, 9, 9, 9, 6, 5, 8});
   switch (what) {
-  case 0: { Prog_CPoly p(e, b); p.run(); break; }
-  case 1: { Prog_NNCPoly p(e, b); p.run(); break; }
-  case 2: { Prog_Grid p(e, b); p.run(); break; }
-  case 3: { Prog_RBox p(e, b); p.run(); break; }
-  case 4: { Prog_BDS p(e, b); p.run(); break; }
-  case 5: { Prog_Oct p(e, b); p.run(); break; }
-  case 6: { Prog_PSet p(e, b); p.run(); break; }
-  case 7: { Prog_Prod p(e, b); p.run(); break; }
+  case 0: c20_run_CPoly(e, b); break;
+  case 1: c20_run_NNCPoly(e, b); break;
+  case 2: c20_run_Grid(e, b); break;
+  case 3: c20_run_RBox(e, b); break;
+  case 4: c20_run_BDS(e, b); break;
+  case 5: c20_run_Oct(e, b); break;
+  case 6: c20_run_PSet(e, b); break;
+  case 7: c20_run_Prod(e, b); break;
   case 8: mip_program(e, b); break;
   case 9: pip_program(e, b); break;
   default: { int k = (int) c.t.range(1, 4); for (int i = 0; i < k; ++i) misc_program(e, b); if (e.err_paths) c.nt(); break; }
   }
   // Oracle (3): every handle created through ppl_new_* was released exactly once.
+  if (e.base_leak) g_skip_leak = true;
   c.check("own.balance", g_handles == h0, [&] { return std::to_string(g_handles - h0) + " handle(s) created by the case were not deleted"; });
 }
 void vf_case(vf::Ctx& c) {
-  long before = mem::live_c;
+  long before = mem::live_c; g_skip_leak = false;
   run_case(c);
   long delta = mem::live_c - before;
-  if (delta > 0) {
+  if (delta > 0 && !g_skip_leak) {
     // PPL caches temporaries: judge a leak only if the same case leaks again immediately
     vf::Ctx c2(c.t.v); long b2 = mem::live_c; bool ok = true;
     try { run_case(c2); } catch (...) { ok = false; }
@@ -958,6 +1025,7 @@ void vf_case(vf::Ctx& c) {
   }
 }
 VF_MAIN
+#endif // C20_MAIN_PART
 #else  // ====================================================================== C20_DOMAIN_BODY
 // One interfaced domain.  Configuration macros: DOM_NAME (program name), DOM_CT (token used by
 // the constructors, e.g. C_Polyhedron), DOM_OT (token used by the operations and the handle
@@ -996,7 +1064,14 @@ struct C20_CAT(Prog_, DOM_NAME, , ) {
     for (size_t i = 0; i < pool.size(); ++i) { std::string a = cdump(pool[i]->h.k()), x = xdump(pool[i]->x);
       c.check(std::string("same.state.") + opid, a == x, [&] { return std::string(dn()) + " obj" + std::to_string(i) + " after " + opid + ": the handle's content differs from the C++ twin's\n--- C handle:\n" + a + "--- C++ twin:\n" + x; }); }
   }
+  // the twin takes exactly the state of a freshly constructed object (operator= would keep stale parts)
+  template <class... A> static void fresh(X& dst, A&&... a) { X tmp(std::forward<A>(a)...); dst.m_swap(tmp); }
+#if DOM_PSET
+  // powerset disjuncts are shared copy-on-write: a query on a copy would minimise the twin's own disjuncts
+  bool interesting(const X& x) { std::stringstream ss; x.ascii_dump(ss); X cp(x.space_dimension(), UNIVERSE); if (!cp.ascii_load(ss)) return false; return !cp.is_empty() && !cp.is_universe(); }
+#else
   bool interesting(const X& x) { X cp(x); return !cp.is_empty() && !cp.is_universe(); }
+#endif
   size_t gv(size_t n) { if (n == 0) return 0; return t.chance(5) ? n : (size_t) t.range(0, (long) n - 1); }
   std::vector<ppl_dimension_type> gvars(size_t n, std::string* txt) { std::vector<ppl_dimension_type> v; for (size_t i = 0; i < n; ++i) if (t.chance(40)) v.push_back(i); if (t.chance(4)) v.push_back(n); if (txt) { *txt = "{"; for (size_t k : v) *txt += " x" + std::to_string(k); *txt += " }"; } return v; }
   static Variables_Set vset(const std::vector<ppl_dimension_type>& v) { Variables_Set s; for (size_t k : v) s.insert(k); return s; }
@@ -1023,13 +1098,13 @@ struct C20_CAT(Prog_, DOM_NAME, , ) {
     std::string txt; int rc = 0;
     switch (kind) {
     case 0: { PCs cs; b.gen_cs(cs, n, 4, nnc, &txt); c.log << "  new " << dn() << " from constraints " << txt << "\n";
-      rc = e.both(NEWN(from_Constraint_System), "new_from_cs", [&] { return NEWF(from_Constraint_System)(o.h.out(), cs.h.k()); }, [&] { o.x = X(cs.x); return 0; }); o.h.got(rc);
+      rc = e.both(NEWN(from_Constraint_System), "new_from_cs", [&] { return NEWF(from_Constraint_System)(o.h.out(), cs.h.k()); }, [&] { fresh(o.x, cs.x); return 0; }); o.h.got(rc);
       b.same_Constraint_System(cs.h.k(), cs.x, "const argument"); cs.h.free_(e); break; }
-    case 1: { int emp = t.chance(30); size_t d = n; if (t.chance(3)) { ppl_dimension_type m; e.ccall("ppl_max_space_dimension", [&] { return ppl_max_space_dimension(&m); }); d = m + 1; }
+    case 1: { int emp = t.chance(30); size_t d = n; if (t.chance(3)) d = (size_t) -2;   // beyond every maximum: length error
       c.log << "  new " << dn() << " from space dimension " << d << (emp ? " empty" : " universe") << "\n";
-      rc = e.both(NEWN(from_space_dimension), "new_from_dim", [&] { return NEWF(from_space_dimension)(o.h.out(), d, emp); }, [&] { o.x = X(d, emp ? EMPTY : UNIVERSE); return 0; }); o.h.got(rc); break; }
+      rc = e.both(NEWN(from_space_dimension), "new_from_dim", [&] { return NEWF(from_space_dimension)(o.h.out(), d, emp); }, [&] { fresh(o.x, d, emp ? EMPTY : UNIVERSE); return 0; }); o.h.got(rc); break; }
     case 2: { PCgs cs; b.gen_cgs(cs, n, 3, &txt); c.log << "  new " << dn() << " from congruences " << txt << "\n";
-      rc = e.both(NEWN(from_Congruence_System), "new_from_cgs", [&] { return NEWF(from_Congruence_System)(o.h.out(), cs.h.k()); }, [&] { o.x = X(cs.x); return 0; }); o.h.got(rc);
+      rc = e.both(NEWN(from_Congruence_System), "new_from_cgs", [&] { return NEWF(from_Congruence_System)(o.h.out(), cs.h.k()); }, [&] { fresh(o.x, cs.x); return 0; }); o.h.got(rc);
       b.same_Congruence_System(cs.h.k(), cs.x, "const argument"); cs.h.free_(e); break; }
     case 3: { // from a C polyhedron (cross-domain constructor)
       PCs cs; b.gen_cs(cs, n, 3, false, &txt); HPolyhedron ph; C_Polyhedron xp(n);
@@ -1037,40 +1112,40 @@ struct C20_CAT(Prog_, DOM_NAME, , ) {
       if (r0 < 0) { rc = r0; break; }
       int cx = (int) t.range(0, 3); c.log << "  new " << dn() << " from C_Polyhedron " << txt << (cx < 3 ? " with complexity " + std::to_string(cx) : std::string()) << "\n";
       static const Complexity_Class cc[3] = { POLYNOMIAL_COMPLEXITY, SIMPLEX_COMPLEXITY, ANY_COMPLEXITY };
-      if (cx == 3) rc = e.both(NEWN(from_C_Polyhedron), "new_from_poly", [&] { return NEWF(from_C_Polyhedron)(o.h.out(), ph.k()); }, [&] { o.x = X(xp); return 0; });
-      else rc = e.both(NEWN(from_C_Polyhedron_with_complexity), "new_from_poly", [&] { return NEWF(from_C_Polyhedron_with_complexity)(o.h.out(), ph.k(), cx); }, [&] { o.x = X(xp, cc[cx]); return 0; });
+      if (cx == 3) rc = e.both(NEWN(from_C_Polyhedron), "new_from_poly", [&] { return NEWF(from_C_Polyhedron)(o.h.out(), ph.k()); }, [&] { fresh(o.x, xp); return 0; });
+      else rc = e.both(NEWN(from_C_Polyhedron_with_complexity), "new_from_poly", [&] { return NEWF(from_C_Polyhedron_with_complexity)(o.h.out(), ph.k(), cx); }, [&] { fresh(o.x, xp, cc[cx]); return 0; });
       o.h.got(rc); b.same_dump("ppl_Polyhedron_ascii_dump", [&](FILE* f) { return ppl_Polyhedron_ascii_dump(ph.k(), f); }, xp); ph.free_(e); break; }
 #if DOM_GENSYS
     case 4: { PGs gs; b.gen_gs(gs, n, 4, nnc, !t.chance(8), &txt); c.log << "  new " << dn() << " from generators " << txt << "\n";
-      rc = e.both(NEWN(from_Generator_System), "new_from_gs", [&] { return NEWF(from_Generator_System)(o.h.out(), gs.h.k()); }, [&] { o.x = X(gs.x); return 0; }); o.h.got(rc);
+      rc = e.both(NEWN(from_Generator_System), "new_from_gs", [&] { return NEWF(from_Generator_System)(o.h.out(), gs.h.k()); }, [&] { fresh(o.x, gs.x); return 0; }); o.h.got(rc);
       b.same_Generator_System(gs.h.k(), gs.x, "const argument"); gs.h.free_(e); break; }
 #endif
 #if DOM_RECYCLE
     case 5: { int w = (int) t.range(0, 1);
       if (w == 0) { PCs cs; b.gen_cs(cs, n, 4, nnc, &txt); c.log << "  new " << dn() << " recycling constraints " << txt << "\n";
-        rc = e.both(NEWN(recycle_Constraint_System), "new_recycle", [&] { return NEWF(recycle_Constraint_System)(o.h.out(), cs.h); }, [&] { o.x = X(cs.x DOM_RECYCLE_ARG); return 0; }); o.h.got(rc); cs.h.free_(e); }
+        rc = e.both(NEWN(recycle_Constraint_System), "new_recycle", [&] { return NEWF(recycle_Constraint_System)(o.h.out(), cs.h); }, [&] { fresh(o.x, cs.x DOM_RECYCLE_ARG); return 0; }); o.h.got(rc); cs.h.free_(e); }
       else { PCgs cs; b.gen_cgs(cs, n, 3, &txt); c.log << "  new " << dn() << " recycling congruences " << txt << "\n";
-        rc = e.both(NEWN(recycle_Congruence_System), "new_recycle", [&] { return NEWF(recycle_Congruence_System)(o.h.out(), cs.h); }, [&] { o.x = X(cs.x DOM_RECYCLE_ARG); return 0; }); o.h.got(rc); cs.h.free_(e); }
+        rc = e.both(NEWN(recycle_Congruence_System), "new_recycle", [&] { return NEWF(recycle_Congruence_System)(o.h.out(), cs.h); }, [&] { fresh(o.x, cs.x DOM_RECYCLE_ARG); return 0; }); o.h.got(rc); cs.h.free_(e); }
       break; }
 #endif
 #if DOM_GRID
     case 6: { PGgs gs; b.gen_ggs(gs, n, 4, !t.chance(8), &txt); c.log << "  new " << dn() << " from grid generators " << txt << "\n";
-      rc = e.both(NEWN(from_Grid_Generator_System), "new_from_ggs", [&] { return NEWF(from_Grid_Generator_System)(o.h.out(), gs.h.k()); }, [&] { o.x = X(gs.x); return 0; }); o.h.got(rc);
+      rc = e.both(NEWN(from_Grid_Generator_System), "new_from_ggs", [&] { return NEWF(from_Grid_Generator_System)(o.h.out(), gs.h.k()); }, [&] { fresh(o.x, gs.x); return 0; }); o.h.got(rc);
       b.same_Grid_Generator_System(gs.h.k(), gs.x, "const argument"); gs.h.free_(e); break; }
 #endif
     default: break;
     }
     if (!o.h.p) {            // the constructor failed (error path) or was not chosen: fall back to a universe
       c.check("own.no_handle_on_error", rc <= 0, "constructor failed but stored a handle");
-      rc = e.both(NEWN(from_space_dimension), "new_from_dim", [&] { return NEWF(from_space_dimension)(o.h.out(), n, 0); }, [&] { o.x = X(n, UNIVERSE); return 0; }); o.h.got(rc);
+      rc = e.both(NEWN(from_space_dimension), "new_from_dim", [&] { return NEWF(from_space_dimension)(o.h.out(), n, 0); }, [&] { fresh(o.x, n, UNIVERSE); return 0; }); o.h.got(rc);
       c.check("same.ret.new_from_dim", o.h.p != 0, "cannot create a universe object");
     }
   }
   Obj* clone(const Obj& src, bool with_cx) {
     std::unique_ptr<Obj> o(new Obj(src.x)); int rc;
-    if (!with_cx) rc = e.both(NEWCOPYN, "new_copy", [&] { return NEWCOPYF(o->h.out(), src.h.k()); }, [&] { o->x = X(src.x); return 0; });
+    if (!with_cx) rc = e.both(NEWCOPYN, "new_copy", [&] { return NEWCOPYF(o->h.out(), src.h.k()); }, [&] { fresh(o->x, src.x); return 0; });
     else { int cx = (int) t.range(0, 2); static const Complexity_Class cc[3] = { POLYNOMIAL_COMPLEXITY, SIMPLEX_COMPLEXITY, ANY_COMPLEXITY };
-      rc = e.both(NEWCOPYCN, "new_copy", [&] { return NEWCOPYCF(o->h.out(), src.h.k(), cx); }, [&] { o->x = X(src.x, cc[cx]); return 0; }); }
+      rc = e.both(NEWCOPYCN, "new_copy", [&] { return NEWCOPYCF(o->h.out(), src.h.k(), cx); }, [&] { fresh(o->x, src.x, cc[cx]); return 0; }); }
     o->h.got(rc); c.check("same.ret.new_copy", o->h.p != 0, "copy construction failed");
     return o.release();
   }
@@ -1280,7 +1355,7 @@ struct C20_CAT(Prog_, DOM_NAME, , ) {
 #define C20_GET(cname, SYS, xcall, cmpf) { c.log << #cname "\n"; ppl_const_##SYS##_t cs = 0; SYS xs; char probe = 0; \
     int r = e.both(OPN(cname), opid, [&] { return OPF(cname)(o.h.k(), &cs); }, [&] { xs = o.x.xcall(); return 0; }); \
     if (r == 0) { if (in_dead_stack(cs, &probe)) { if (vf::kf("KF-C20-4")) { c.excluded("KF-C20-4"); break; } \
-        c.check("own.result_outlives_call", false, std::string(OPN(cname)) + " returned a handle to an object living in its own (already popped) stack frame: the C++ getter returns by value and the interface takes the address of the temporary"); } \
+        c.check("own.result_outlives_call", false, std::string(OPN(cname)) + " returned a handle to an object living in its own (already popped) stack frame: the C++ getter returns by value and the interface takes the address of the temporary"); break; } \
       b.cmpf(cs, xs, #cname); } break; }
   void getters(Obj& o, Obj& q, size_t, const char*& opid) {
     opid = "getters"; (void) o; (void) q;
@@ -1303,7 +1378,7 @@ struct C20_CAT(Prog_, DOM_NAME, , ) {
       std::pair<X, Pointset_Powerset<NNC_Polyhedron> > xr(o.x, Pointset_Powerset<NNC_Polyhedron>(0, EMPTY));
       int r = e.both(OPN(linear_partition), opid, [&] { return OPF(linear_partition)(o.h.k(), q.h.k(), &inters, &rest); }, [&] { xr = linear_partition(o.x, q.x); return 0; });
       if (r == 0) { if (in_dead_stack(inters, &probe) || in_dead_stack(rest, &probe)) { if (vf::kf("KF-C20-5")) { c.excluded("KF-C20-5"); break; }
-          c.check("own.result_outlives_call", false, std::string(OPN(linear_partition)) + " returned handles to objects living in its own (already popped) stack frame"); }
+          c.check("own.result_outlives_call", false, std::string(OPN(linear_partition)) + " returned handles to objects living in its own (already popped) stack frame"); break; }
         std::string a = cdump(inters); c.check("same.out.linear_partition", a == xdump(xr.first), "linear_partition: intersection differs");
         b.same_dump("ppl_Pointset_Powerset_NNC_Polyhedron_ascii_dump", [&](FILE* f) { return ppl_Pointset_Powerset_NNC_Polyhedron_ascii_dump(rest, f); }, xr.second);
         int d1 = e.ccall(C20_STR(C20_CAT(ppl_delete_, DOM_OT, , )), [&] { return C20_CAT(ppl_delete_, DOM_OT, , )(inters); }); int d2 = e.ccall("ppl_delete_Pointset_Powerset_NNC_Polyhedron", [&] { return ppl_delete_Pointset_Powerset_NNC_Polyhedron(rest); }); c.check("own.delete", d1 == 0 && d2 == 0, "deleting the results of linear_partition failed"); }
@@ -1463,7 +1538,7 @@ struct C20_CAT(Prog_, DOM_NAME, , ) {
   // Deterministic timeout around one call on a scratch copy: normal completion or
   // PPL_TIMEOUT_EXCEPTION (handler invoked); afterwards the interface must work normally.
   void det_timeout(Obj& o, size_t n, const char*& opid) {
-    opid = "timeout"; std::unique_ptr<Obj> w(clone(o, false)); unsigned long wgt = (unsigned long) t.range(0, 30); unsigned scale = (unsigned) t.range(0, 2); std::string txt;
+    opid = "timeout"; std::unique_ptr<Obj> w(clone(o, false)); unsigned long wgt = (unsigned long) t.range(1, 30); unsigned scale = (unsigned) t.range(0, 2); std::string txt;
     PCs cs; b.gen_cs(cs, n, 4, nnc, &txt); e.ccall(OPN(add_constraints), [&] { return OPF(add_constraints)(w->h, cs.h.k()); }); cs.h.free_(e);
     c.log << "deterministic timeout " << wgt << "*2^" << scale << " around is_empty/minimisation of a copy with " << txt << "\n";
     int r0 = e.both("ppl_set_deterministic_timeout", "set_det_timeout", [&] { return ppl_set_deterministic_timeout(wgt, scale); }, [&] { if (wgt == 0) throw std::invalid_argument("zero weight"); return 0; });
